@@ -83,6 +83,7 @@ def _case(draw, unit):
                                           [0.5, 1.0], [1.0, -1.0], [3.0, 0.25]])),
         # the module had a previous life with another wavelet of the same length (load_state_dict in between)
         'reused': draw(st.integers(0, 4)) == 0,
+        'ctx': draw(st.sampled_from(core.GRAD_CTXS)),
         'rx': draw(core.recipe_strategy()),
         'k': draw(st.integers(0, 10**6)),
     }
@@ -181,6 +182,12 @@ def _flat(yl, yh):
 
 
 def run_case(case):
+    with core.grad_ctx(case.get('ctx')):
+        r = _run_case(case)
+    return r.label('ctx_' + case['ctx']) if case.get('ctx', 'default') != 'default' else r
+
+
+def _run_case(case):
     r = Result()
     dim, w, mode, J = case['dim'], case['wave'], case['mode'], case['J']
     size = list(case['size'])
